@@ -177,9 +177,10 @@ Definition ok (c : term * list entry * option term) : bool :=
 """
 
 
-def write_case_files(dirpath, tag, rows, shard):
+def write_case_files(dirpath, tag, rows, shard, offset=0):
     """Rows are dealt round-robin to the files (row i -> file i mod n), so that the few expensive
-    cases of one stream do not end up in the same file.  Returns [(path, [global indexes])]."""
+    cases of one stream do not end up in the same file.  Returns [(path, [global indexes])]; `offset` is
+    the global index of rows[0]."""
     nfiles = max(1, (len(rows) + shard - 1) // shard)
     files = []
     for k in range(nfiles):
@@ -190,8 +191,33 @@ def write_case_files(dirpath, tag, rows, shard):
         p = os.path.join(dirpath, "cases_%s_%d.v" % (tag, k))
         with open(p, "w") as f:
             f.write(text)
-        files.append((p, idx))
+        files.append((p, [offset + i for i in idx]))
     return files
+
+
+class CasePool(object):
+    """coqc on case files in the background (subprocesses), so that the model is evaluated while the implementation
+    and the reference evaluator work on the next cases."""
+    def __init__(self, jobs=None):
+        from concurrent.futures import ThreadPoolExecutor
+        self.ex = ThreadPoolExecutor(max_workers=jobs or max(2, lib.NPROC // 2))
+        self.futs = []          # (path, [global indexes], future)
+
+    def submit(self, files):
+        for p, idx in files:
+            self.futs.append((p, idx, self.ex.submit(lib.coqc_file, p)))
+
+    def results(self):
+        bad, errs = [], []
+        for p, idx, fut in self.futs:
+            rc, out = fut.result()
+            mm = lib.parse_nat_list(out) if rc == 0 else None
+            if mm is None:
+                errs.append({"file": p, "error": out[-800:]})
+            else:
+                bad += [idx[i] for i in mm]
+        self.ex.shutdown()
+        return sorted(bad), errs
 
 
 def run_files(files):
@@ -1417,7 +1443,16 @@ def run_prims(chk, rnd, tier):
         with open(p, "w") as f:
             f.write(text)
         files.append((p, idx))
-    bad, errs = run_files(files)
+    pool = CasePool()
+    pool.submit(files)
+
+    def finish():
+        bad, errs = pool.results()
+        return _finish_prims(chk, cases, bad, errs)
+    return finish
+
+
+def _finish_prims(chk, cases, bad, errs):
     hist = {}
     for t, _ in cases:
         hist[t] = hist.get(t, 0) + 1
@@ -1494,6 +1529,18 @@ def run_simplify(chk, rnd, tier):
     st = Stream(chk, rnd, tier)
     quick = tier == "quick"
     t0 = time.time()
+    pool = CasePool()
+    state = {"done": 0, "batch": 0, "files": 0}
+
+    def flush(force=False):
+        """hand the rows generated so far to coqc (in the background)"""
+        n = len(st.rows)
+        if n - state["done"] >= (3000 if not force else 1):
+            files = write_case_files(chk.dir, "simp%d" % state["batch"], st.rows[state["done"]:n], 250, offset=state["done"])
+            pool.submit(files)
+            state["files"] += len(files)
+            state["done"] = n
+            state["batch"] += 1
     # ---- random deep DAGs ----
     nrandom = 2400 if quick else 30000
     per_env = 200
@@ -1507,6 +1554,7 @@ def run_simplify(chk, rnd, tier):
                 f = g.gen(t, rnd.randint(1, 5))
                 st.add(env, f, "random")
     nreg = run_regressions(chk, st)
+    flush()
     chk.note("random stream + %d regression cases: %d cases in %.1fs" % (nreg, len(st.rows), time.time() - t0))
     # ---- directed ----
     t1 = time.time()
@@ -1542,13 +1590,14 @@ def run_simplify(chk, rnd, tier):
                 seen.add(f)
                 st.add(env, f, name)
         st.stream_time[name] = round(time.time() - tp, 1)
+        flush()
+    flush(force=True)
     chk.note("directed stream: %d cases in %.1fs  %s" % (len(st.rows) - st.per_stream.get("random", 0), time.time() - t1, st.stream_time))
     # ---- model inside Coq ----
     t2 = time.time()
-    files = write_case_files(chk.dir, "simp", st.rows, 250)
-    bad, errs = run_files(files)
-    chk.note("model evaluated on %d cases (%d files) in %.1fs: %d disagreements, %d file errors"
-             % (len(st.rows), len(files), time.time() - t2, len(bad), len(errs)))
+    bad, errs = pool.results()
+    chk.note("model evaluated on %d cases (%d files, in the background since the first batch): waited %.1fs more, %d disagreements, %d file errors"
+             % (len(st.rows), state["files"], time.time() - t2, len(bad), len(errs)))
     ml = modelled_lines()
     src = open(SIMPLIFIER_FILE).read().split("\n")
 
@@ -1618,9 +1667,11 @@ def run(tier):
     chk.note("proof part: %s" % ("ok" if ok else "FAILED"))
     lib.clean_cases(chk.dir)
     only = os.environ.get("VERIF_C01_ONLY", "")      # development aid: "prims" or "simplify"
-    prims_ok = run_prims(chk, random.Random(chk.seed * 7919 + 1), tier) if only != "simplify" else True
-    chk.note("PyPrims vs CPython: %s" % ("ok" if prims_ok else "DISAGREEMENT"))
+    # the PyPrims case files are evaluated by coqc in the background while the simplify streams are generated
+    prims_finish = run_prims(chk, random.Random(chk.seed * 7919 + 1), tier) if only != "simplify" else (lambda: True)
     corr_ok, st = run_simplify(chk, rnd, tier) if only != "prims" else (True, None)
+    prims_ok = prims_finish()
+    chk.note("PyPrims vs CPython: %s" % ("ok" if prims_ok else "DISAGREEMENT"))
     if not ok or not prims_ok or not corr_ok:
         # the proof or a tie is broken: if the SEARCH above found an input on which the property itself fails
         # (an unlisted VIOLATION was printed) that is the report; otherwise name what no longer checks
